@@ -54,7 +54,8 @@ THEOREMS = ['C05_pot_transform_compl_untouched', 'C05_pot_transform_den',
             'C05_inline_cells_den', 'C05_trcl_phase_den',
             'C05_explicit_transformation_not_empty',
             'C05_inline_cells_den_conv', 'C05_pipeline_located',
-            'C05_precedence_from_tokens', 'C05_precedence_located']
+            'C05_precedence_from_tokens', 'C05_precedence_located',
+            'C05_trcl_phase_with_cellrefs_refuted']
 
 
 def tie_case_summary(case):
@@ -144,6 +145,28 @@ def starred_fill_witnesses():
         text = text.replace(target, ' *' + target[1:])
         out.append((f'*fill without transformation + TRCL, {name[-7:]}',
                     deck, text, holder['id'], opts))
+    return out
+
+
+def null_fill_witnesses():
+    '''Minimal decks of the seeded regression: a container with a TRCL and an
+    explicit null fill transformation (plain and starred), level 1 and nested:
+    the fill transformation places the universe, the TRCL does not.'''
+    import copy
+    out = []
+    for name, base, opts in negative_universe_witnesses()[:2]:
+        for star in (False, True):
+            deck = copy.deepcopy(base)
+            deck['title'] = 'c05 TRCL + null fill transformation'
+            for c in deck['cells']:
+                c['u'] = abs(c['u'])
+            holder = [c for c in deck['cells'] if c['fill'] is not None][-1]
+            holder['trcl'] = deckmod.make_tr([0.75, 0.0, 0.25])
+            tr = deckmod.make_tr([0.0, 0.0, 0.0])
+            tr['star'] = star
+            holder['fill']['tr'] = tr
+            out.append((f'TRCL + {"*" if star else ""}fill=n (0 0 0), '
+                        f'{name[-7:]}', deck, deckmod.render(deck), opts))
     return out
 
 
@@ -295,10 +318,31 @@ def run(res, tier, seed, proofs_ok):
                  'observed': [f['why'] for f in fails[:5]]},
                 found_input=True)
 
+    for name, deck, text, options in null_fill_witnesses():
+        fails = text_failures(deck, text, options)
+        res.count('corpus:trcl+null_fill_transformation')
+        res.seen((text, tuple(options)), nontrivial=True)
+        if fails:
+            res.violation(
+                'impl-violation',
+                f'{name}: {len(fails)} sample points misplaced: '
+                f'{fails[0]["why"]}',
+                {'input': {'deck': text, 'options': options,
+                           'abstract': deck, 'point': fails[0]['point']},
+                 'expected': 'mcnpref.Reference.locate (an explicit fill '
+                             'transformation wins over the TRCL)',
+                 'observed': [f['why'] for f in fails[:5]]},
+                found_input=True)
+
     # 2. tie
     cases, meta = [], []
-    for i in range(n_tie):
-        case = c05_tie.gen_case(rng, malformed=(i % 4 == 3))
+    corpus = c05_tie.corpus_cases()
+    for i in range(-len(corpus), n_tie):
+        if i < 0:
+            case = corpus[i + len(corpus)]
+            res.count('tie:corpus')
+        else:
+            case = c05_tie.gen_case(rng, malformed=(i % 4 == 3))
         runner = c05_tie.Runner(case)
         try:
             outcome = runner.run()
